@@ -24,6 +24,7 @@ structure St where
   node : Node := { led := {}, height := 0 }
   started : Bool := false
   hist : List (Nat × Node) := []      -- the node after each height (for `reorg`: consensus replaces an executed block)
+  minJ : Nat := 1                     -- `minJnlHeight` of the state ledger: the lowest height a rollback may name (journals are pruned below head-10)
 
 def initNode : Node :=
   let store : KV Key Val := worldServices.foldl (fun m p =>
@@ -186,7 +187,8 @@ def doBlock (s : St) (rest : List String) : St × String :=
     let listedFinal := (getTimeoutList l2 h).any fun id => match id with
       | .single t => (match l2.getS (.txRec t) with | some (.trec r) => r.status.isFinal | _ => false)
       | .global _ => false
-    ({ s with node := n', hist := s.hist ++ [(n'.height, n')] }, showBlock out outside ++ " ##m listedfinal=" ++ (if listedFinal then "1" else "0"))
+    ({ s with node := n', hist := s.hist ++ [(n'.height, n')], minJ := if n'.height > 10 then max s.minJ (n'.height - 10) else s.minJ },
+      showBlock out outside ++ " ##m listedfinal=" ++ (if listedFinal then "1" else "0"))
   else (s, "bad-op unparsed")
 
 def step (s : St) (ws : List String) : St × String :=
@@ -212,6 +214,18 @@ def step (s : St) (ws : List String) : St × String :=
         -- the executor object lives on: its service cache is the running node's one
         let s1 := { s with node := { base with cache := s.node.cache }, hist := s.hist.filter (fun p => p.1 < h) }
         doBlock s1 rest
+  | ["lrollback", tt] =>
+    -- `Ledger.Rollback(t)` on the stopped node, then a start: the state ledger refuses a height above the head and one below
+    -- the journal window, and a refusal leaves state AND chain where they were
+    match tt.toNat? with
+    | none => (s, "bad-op")
+    | some t =>
+      if t > s.node.height then (s, s!"err:higher h={s.node.height}")
+      else if s.minJ > t && !(s.minJ == 1 && t == 0) then ({ s with node := { s.node with cache := [] } }, s!"err:too-much h={s.node.height}")
+      else if t == s.node.height then ({ s with node := { s.node with cache := [] } }, s!"ok h={s.node.height}")
+      else match s.hist.find? (fun p => p.1 == t) with
+        | none => (s, "bad-op")
+        | some (_, base) => ({ s with node := { base with cache := [] }, hist := s.hist.filter (fun p => p.1 ≤ t) }, s!"ok h={t}")
   | ["q", "status", id] =>
     match parseTxId id with
     | some t => (s, match tmGetStatus s.node.led t with | some st => toString st.toNat | none => "none")
